@@ -115,14 +115,14 @@ variable [FloatLike FX]
 
 def arg (a : Args) (k : String) : Option String := a.get k
 
-def goEval {T : Type} [Codec T] [Evaluate T FX] (a : Args) : String :=
+def goEval {T : Type} [Codec T FX] [Evaluate T FX] (a : Args) : String :=
   match (arg a "p").bind fxList? |>.bind (Codec.dec (T := T)), (arg a "x").bind fx? with
   | some p, some x =>
     let y := Evaluate.evaluate p x
     verdict a (.nums [y]) (Mon.eval (arg a "T") ((arg a "p").bind fxList? |>.getD []) x)
   | _, _ => "bad args"
 
-def goPwEval {T : Type} [Codec T] [Evaluate T FX] [Nums T FX] (a : Args) : String :=
+def goPwEval {T : Type} [Codec T FX] [Evaluate T FX] [Nums T FX] (a : Args) : String :=
   match (arg a "pw").bind (segs? (T := T)), (arg a "x").bind fx? with
   | some segs, some x =>
     let r := Hand.pwEvaluate ⟨segs⟩ x
@@ -130,61 +130,61 @@ def goPwEval {T : Type} [Codec T] [Evaluate T FX] [Nums T FX] (a : Args) : Strin
       (Mon.pwEval (arg a "T") (segs.map fun s => (s.end, Nums.nums s.poly)) x)
   | _, _ => "bad args"
 
-def goEvaluator {T : Type} [Codec T] [Evaluate T FX] (a : Args) : String :=
+def goEvaluator {T : Type} [Codec T FX] [Evaluate T FX] (a : Args) : String :=
   match (arg a "pw").bind (segs? (T := T)), (arg a "xs").bind fxList? with
   | some segs, some xs =>
     let r := Hand.evaluatorRun segs xs
     verdict a (Out.ofOptNums r) (Mon.history xs ((arg a "direct").bind fxList?))
   | _, _ => "bad args"
 
-def goEvalV {T : Type} [Codec T] [Evaluate T FX] (a : Args) : String :=
+def goEvalV {T : Type} [Codec T FX] [Evaluate T FX] (a : Args) : String :=
   match (arg a "pw").bind (segs? (T := T)), (arg a "xs").bind fxList? with
   | some segs, some xs =>
     let r := Hand.evaluateV ⟨segs⟩ xs
     verdict a (Out.ofOptNums r) (Mon.evalV xs ((arg a "direct").bind fxList?) ((arg a "directmax").bind fxList?))
   | _, _ => "bad args"
 
-def goDeriv {T D : Type} [Codec T] [HasDerivative T D] [Nums D FX] (a : Args) : String :=
+def goDeriv {T D : Type} [Codec T FX] [HasDerivative T D] [Nums D FX] (a : Args) : String :=
   match (arg a "p").bind fxList? |>.bind (Codec.dec (T := T)) with
   | some p => verdict a (.nums (Nums.nums (HasDerivative.derivative p : D))) (Mon.calculus "deriv" (arg a "T") ((arg a "p").bind fxList? |>.getD []) [])
   | _ => "bad args"
 
-def goIndef {T I : Type} [Codec T] [HasIntegral T (Knot FX) I] [Nums I FX] (a : Args) : String :=
+def goIndef {T I : Type} [Codec T FX] [HasIntegral T (Knot FX) I] [Nums I FX] (a : Args) : String :=
   match (arg a "p").bind fxList? |>.bind (Codec.dec (T := T)) with
   | some p => verdict a (.nums (Nums.nums (HasIntegral.indefinite p : I))) (Mon.calculus "indef" (arg a "T") ((arg a "p").bind fxList? |>.getD []) [])
   | _ => "bad args"
 
-def goIntegral {T I : Type} [Codec T] [HasIntegral T (Knot FX) I] [Nums I FX] (a : Args) : String :=
+def goIntegral {T I : Type} [Codec T FX] [HasIntegral T (Knot FX) I] [Nums I FX] (a : Args) : String :=
   match (arg a "p").bind fxList? |>.bind (Codec.dec (T := T)), (arg a "k").bind fxList? |>.bind (Codec.dec (T := Knot FX)) with
   | some p, some k => verdict a (.nums (Nums.nums (HasIntegral.integral p k : I))) (Mon.calculus "integral" (arg a "T") ((arg a "p").bind fxList? |>.getD []) ((arg a "k").bind fxList? |>.getD []))
   | _, _ => "bad args"
 
-def goTranslate {T : Type} [Codec T] [Translate T FX] [Nums T FX] (a : Args) : String :=
+def goTranslate {T : Type} [Codec T FX] [Translate T FX] [Nums T FX] (a : Args) : String :=
   match (arg a "p").bind fxList? |>.bind (Codec.dec (T := T)), (arg a "v").bind fx? with
   | some p, some v => verdict a (.nums (Nums.nums (Translate.translate p v)))
   | _, _ => "bad args"
 
-def goMul {T O : Type} [Codec T] [PMul T FX O] [Nums O FX] (a : Args) : String :=
+def goMul {T O : Type} [Codec T FX] [PMul T FX O] [Nums O FX] (a : Args) : String :=
   match (arg a "p").bind fxList? |>.bind (Codec.dec (T := T)), (arg a "s").bind fx? with
   | some p, some s => verdict a (.nums (Nums.nums (PMul.mul p s : O)))
   | _, _ => "bad args"
 
-def goMulAssign {T : Type} [Codec T] [PMulAssign T FX] [Nums T FX] (a : Args) : String :=
+def goMulAssign {T : Type} [Codec T FX] [PMulAssign T FX] [Nums T FX] (a : Args) : String :=
   match (arg a "p").bind fxList? |>.bind (Codec.dec (T := T)), (arg a "s").bind fx? with
   | some p, some s => verdict a (.nums (Nums.nums (PMulAssign.mulAssign p s)))
   | _, _ => "bad args"
 
-def goNeg {T O : Type} [Codec T] [PNeg T O] [Nums O FX] (a : Args) : String :=
+def goNeg {T O : Type} [Codec T FX] [PNeg T O] [Nums O FX] (a : Args) : String :=
   match (arg a "p").bind fxList? |>.bind (Codec.dec (T := T)) with
   | some p => verdict a (.nums (Nums.nums (PNeg.neg p : O)))
   | _ => "bad args"
 
-def goAdd {T O : Type} [Codec T] [PAdd T T O] [Nums O FX] (a : Args) : String :=
+def goAdd {T O : Type} [Codec T FX] [PAdd T T O] [Nums O FX] (a : Args) : String :=
   match (arg a "p").bind fxList? |>.bind (Codec.dec (T := T)), (arg a "q").bind fxList? |>.bind (Codec.dec (T := T)) with
   | some p, some q => verdict a (.nums (Nums.nums (PAdd.add p q : O)))
   | _, _ => "bad args"
 
-def goAbsDiff {T : Type} [Codec T] [AbsDiffEq T FX] (a : Args) : String :=
+def goAbsDiff {T : Type} [Codec T FX] [AbsDiffEq T FX] (a : Args) : String :=
   match (arg a "p").bind fxList? |>.bind (Codec.dec (T := T)), (arg a "q").bind fxList? |>.bind (Codec.dec (T := T)),
         (arg a "eps").bind fx? with
   | some p, some q, some eps =>
@@ -192,7 +192,7 @@ def goAbsDiff {T : Type} [Codec T] [AbsDiffEq T FX] (a : Args) : String :=
       (Mon.approxAbs ((arg a "p").bind fxList? |>.getD []) ((arg a "q").bind fxList? |>.getD []) eps)
   | _, _, _ => "bad args"
 
-def goRelEq {T : Type} [Codec T] [RelativeEq T FX] (a : Args) : String :=
+def goRelEq {T : Type} [Codec T FX] [RelativeEq T FX] (a : Args) : String :=
   match (arg a "p").bind fxList? |>.bind (Codec.dec (T := T)), (arg a "q").bind fxList? |>.bind (Codec.dec (T := T)),
         (arg a "eps").bind fx?, (arg a "mr").bind fx? with
   | some p, some q, some eps, some mr =>
@@ -202,17 +202,17 @@ def goRelEq {T : Type} [Codec T] [RelativeEq T FX] (a : Args) : String :=
 
 /-! piecewise-level operations -/
 
-def goPwDeriv {T D : Type} [Codec T] [HasDerivative T D] [Nums D FX] (a : Args) : String :=
+def goPwDeriv {T D : Type} [Codec T FX] [HasDerivative T D] [Nums D FX] (a : Args) : String :=
   match (arg a "pw").bind (segs? (T := T)) with
   | some segs => verdict a (Out.ofPw (Hand.pwDerivative (D := D) ⟨segs⟩))
   | _ => "bad args"
 
-def goSegDeriv {T D : Type} [Codec T] [HasDerivative T D] [Nums D FX] (a : Args) : String :=
+def goSegDeriv {T D : Type} [Codec T FX] [HasDerivative T D] [Nums D FX] (a : Args) : String :=
   match (arg a "pw").bind (segs? (T := T)) with
   | some [s] => verdict a (Out.ofSegs [(HasDerivative.derivative s : Segment FX D)])
   | _ => "bad args"
 
-def goPwIntegral {T I : Type} [Codec T] [HasIntegral T (Knot FX) I] [Evaluate I FX] [Translate I FX] [Nums I FX] [Nums T FX]
+def goPwIntegral {T I : Type} [Codec T FX] [HasIntegral T (Knot FX) I] [Evaluate I FX] [Translate I FX] [Nums I FX] [Nums T FX]
     (a : Args) : String :=
   match (arg a "pw").bind (segs? (T := T)), (arg a "k").bind fxList? |>.bind (Codec.dec (T := Knot FX)) with
   | some segs, some k =>
@@ -220,7 +220,7 @@ def goPwIntegral {T I : Type} [Codec T] [HasIntegral T (Knot FX) I] [Evaluate I 
     verdict a (Out.ofPw r) (Mon.pwIntegral "pwintegral" (arg a "T") (segs.map fun s => (s.end, Nums.nums s.poly)) ((arg a "k").bind fxList? |>.getD []))
   | _, _ => "bad args"
 
-def goPwIndef {T I : Type} [Codec T] [HasIntegral T (Knot FX) I] [Evaluate I FX] [Translate I FX] [Nums I FX] [Nums T FX]
+def goPwIndef {T I : Type} [Codec T FX] [HasIntegral T (Knot FX) I] [Evaluate I FX] [Translate I FX] [Nums I FX] [Nums T FX]
     (a : Args) : String :=
   match (arg a "pw").bind (segs? (T := T)) with
   | some segs =>
@@ -229,7 +229,7 @@ def goPwIndef {T I : Type} [Codec T] [HasIntegral T (Knot FX) I] [Evaluate I FX]
   | _ => "bad args"
 
 /-- `Segment::integral_iter` / `integral_iter_ref` (same model) -/
-def goIntegralIter {T I : Type} [Codec T] [HasIntegral T (Knot FX) I] [Evaluate I FX] [Translate I FX] [Nums I FX] [Nums T FX]
+def goIntegralIter {T I : Type} [Codec T FX] [HasIntegral T (Knot FX) I] [Evaluate I FX] [Translate I FX] [Nums I FX] [Nums T FX]
     (a : Args) : String :=
   match (arg a "pw").bind (segs? (T := T)), (arg a "k").bind fxList? |>.bind (Codec.dec (T := Knot FX)) with
   | some segs, some k =>
@@ -240,63 +240,63 @@ def goIntegralIter {T I : Type} [Codec T] [HasIntegral T (Knot FX) I] [Evaluate 
       | none => none)
   | _, _ => "bad args"
 
-def goSegIntegral {T I : Type} [Codec T] [HasIntegral T (Knot FX) I] [Evaluate I FX] [Translate I FX] [Nums I FX] [Nums T FX]
+def goSegIntegral {T I : Type} [Codec T FX] [HasIntegral T (Knot FX) I] [Evaluate I FX] [Translate I FX] [Nums I FX] [Nums T FX]
     (a : Args) : String :=
   match (arg a "pw").bind (segs? (T := T)), (arg a "k").bind fxList? |>.bind (Codec.dec (T := Knot FX)) with
   | some [s], some k => verdict a (Out.ofSegs [(HasIntegral.integral s k : Segment FX I)])
       (Mon.pwIntegral "segintegral" (arg a "T") [(s.end, Nums.nums s.poly)] ((arg a "k").bind fxList? |>.getD []))
   | _, _ => "bad args"
 
-def goSegIndef {T I : Type} [Codec T] [HasIntegral T (Knot FX) I] [Evaluate I FX] [Translate I FX] [Nums I FX] [Nums T FX]
+def goSegIndef {T I : Type} [Codec T FX] [HasIntegral T (Knot FX) I] [Evaluate I FX] [Translate I FX] [Nums I FX] [Nums T FX]
     (a : Args) : String :=
   match (arg a "pw").bind (segs? (T := T)) with
   | some [s] => verdict a (Out.ofSegs [(HasIntegral.indefinite s : Segment FX I)])
       (Mon.pwIntegral "segindef" (arg a "T") [(s.end, Nums.nums s.poly)] [])
   | _ => "bad args"
 
-def goPwMul {T : Type} [Codec T] [PMul T FX T] [Nums T FX] (a : Args) : String :=
+def goPwMul {T : Type} [Codec T FX] [PMul T FX T] [Nums T FX] (a : Args) : String :=
   match (arg a "pw").bind (segs? (T := T)), (arg a "s").bind fx? with
   | some segs, some s => verdict a (Out.ofPw (Hand.pwMul ⟨segs⟩ s))
   | _, _ => "bad args"
 
-def goSegMul {T : Type} [Codec T] [PMul T FX T] [Nums T FX] (a : Args) : String :=
+def goSegMul {T : Type} [Codec T FX] [PMul T FX T] [Nums T FX] (a : Args) : String :=
   match (arg a "pw").bind (segs? (T := T)), (arg a "s").bind fx? with
   | some [sg], some s => verdict a (Out.ofSegs [(PMul.mul sg s : Segment FX T)])
   | _, _ => "bad args"
 
-def goPwMulAssign {T : Type} [Codec T] [PMulAssign T FX] [Nums T FX] (a : Args) : String :=
+def goPwMulAssign {T : Type} [Codec T FX] [PMulAssign T FX] [Nums T FX] (a : Args) : String :=
   match (arg a "pw").bind (segs? (T := T)), (arg a "s").bind fx? with
   | some segs, some s => verdict a (Out.ofPw (Hand.pwMulAssign ⟨segs⟩ s))
   | _, _ => "bad args"
 
-def goSegMulAssign {T : Type} [Codec T] [PMulAssign T FX] [Nums T FX] (a : Args) : String :=
+def goSegMulAssign {T : Type} [Codec T FX] [PMulAssign T FX] [Nums T FX] (a : Args) : String :=
   match (arg a "pw").bind (segs? (T := T)), (arg a "s").bind fx? with
   | some [sg], some s => verdict a (Out.ofSegs [PMulAssign.mulAssign sg s])
   | _, _ => "bad args"
 
-def goPwNeg {T : Type} [Codec T] [PNeg T T] [Nums T FX] (a : Args) : String :=
+def goPwNeg {T : Type} [Codec T FX] [PNeg T T] [Nums T FX] (a : Args) : String :=
   match (arg a "pw").bind (segs? (T := T)) with
   | some segs => verdict a (Out.ofPw (Hand.pwNeg ⟨segs⟩))
   | _ => "bad args"
 
-def goPwTranslate {T : Type} [Codec T] [Translate T FX] [Nums T FX] (a : Args) : String :=
+def goPwTranslate {T : Type} [Codec T FX] [Translate T FX] [Nums T FX] (a : Args) : String :=
   match (arg a "pw").bind (segs? (T := T)), (arg a "v").bind fx? with
   | some segs, some v => verdict a (Out.ofPw (Hand.pwTranslate ⟨segs⟩ v))
   | _, _ => "bad args"
 
-def goSegTranslate {T : Type} [Codec T] [Translate T FX] [Nums T FX] (a : Args) : String :=
+def goSegTranslate {T : Type} [Codec T FX] [Translate T FX] [Nums T FX] (a : Args) : String :=
   match (arg a "pw").bind (segs? (T := T)), (arg a "v").bind fx? with
   | some [sg], some v => verdict a (Out.ofSegs [Translate.translate sg v])
   | _, _ => "bad args"
 
-def goPwAbsDiff {T : Type} [Codec T] [AbsDiffEq T FX] [Nums T FX] (a : Args) : String :=
+def goPwAbsDiff {T : Type} [Codec T FX] [AbsDiffEq T FX] [Nums T FX] (a : Args) : String :=
   match (arg a "pw").bind (segs? (T := T)), (arg a "pw2").bind (segs? (T := T)), (arg a "eps").bind fx? with
   | some f, some g, some eps =>
     verdict a (.bool (AbsDiffEq.absDiffEq f g eps))
       (Mon.approxAbsPw (f.map fun s => s.end :: Nums.nums s.poly) (g.map fun s => s.end :: Nums.nums s.poly) eps)
   | _, _, _ => "bad args"
 
-def goPwRelEq {T : Type} [Codec T] [AbsDiffEq T FX] [RelativeEq T FX] [Nums T FX] (a : Args) : String :=
+def goPwRelEq {T : Type} [Codec T FX] [AbsDiffEq T FX] [RelativeEq T FX] [Nums T FX] (a : Args) : String :=
   match (arg a "pw").bind (segs? (T := T)), (arg a "pw2").bind (segs? (T := T)), (arg a "eps").bind fx?, (arg a "mr").bind fx? with
   | some f, some g, some eps, some mr =>
     verdict a (.bool (RelativeEq.relativeEq f g eps mr))
